@@ -1,59 +1,19 @@
 #!/usr/bin/env python3
-"""Generates /verif/MANIFEST.json from the table below (single source of truth)."""
+"""Generates /verif/MANIFEST.json from tools/checks_table.json (single source of truth: one entry per claimed check:
+technique, engine, level (default model_checking), text, note, ref; plus the engines list and optional not_applicable reasons)."""
 import json, os, subprocess
 V = os.path.dirname(os.path.dirname(os.path.abspath(__file__)))
 props = [json.loads(l) for l in open(os.path.join(V, "properties.jsonl"))]
+T = json.load(open(os.path.join(V, "tools", "checks_table.json")))
+CHECKS, ENGINES, NA = T["checks"], T["engines"], T.get("not_applicable", {})
+
 
 def hook_commits():
     out = subprocess.run(["git", "-C", "/repo", "log", "--format=%h %s"], stdout=subprocess.PIPE, text=True).stdout
     return [l.split()[0] for l in out.splitlines() if " verif hooks:" in l]
 
-MC = "model_checking"
-CHECKS = {
- "C03": dict(
-  technique="TLA+ spec (BFT.tla) exhaustively model-checked with TLC + trace validation of the real bft.Engine/node import path against Trace_BFT.tla",
-  engine="bft",
-  text="BFT.tla (block-level finality gadget: vote rule, tallies, fork choice, finality, restart) is explored exhaustively by TLC for "
-       "4 validators / 1 Byzantine within small bounds; FinalitySafety, FinMonotone, BestExtendsFin hold in every state. The binding is "
-       "implementation->model: seeded runs of 3-6 real node stacks (real packer, consensus, bft engine, repository) under honest, "
-       "asynchronous, Byzantine-equivocation, restart and threshold-boundary schedules are recorded and every event is re-derived by "
-       "Trace_BFT.tla (COM bit, accept/refuse, best, finalized, justified, tally, casts) with all invariants evaluated after every event.",
-  note="Trusted: hashes/signatures as injective oracles; block ids, scores and id order are logged facts. Exhaustive only inside MCBFT_*.cfg bounds; "
-       "larger adversarial behaviours are sampled. Liveness clause checked on synchronous all-honest traces (justified/committed recomputed per block).",
-  ref="5 C03/C04"),
- "C04": dict(
-  technique="TLA+ spec (BFT.tla OrderIndependence) model-checked with TLC + trace validation of permuted/late/duplicated deliveries to real nodes against Trace_BFT.tla",
-  engine="bft",
-  text="OrderIndependence and RestartKeepsVoteRule are invariants of BFT.tla checked exhaustively. On the implementation, the same seeded block tree is delivered "
-       "to every real node in a different parent-before-child order with duplicates and restarts (plus the targeted late-sibling stream); Trace_BFT.tla "
-       "recomputes best/finalized/justified and the definitional vote tally (from scratch, per block) and requires equality with what the engine reported "
-       "(incremental, cached); OrderIndependence is evaluated after every event over all nodes.",
-  note="Trusted: hashes as oracles; ids/scores logged. Orders are sampled (seeded), the design-level invariant is exhaustive within bounds.",
-  ref="5 C03/C04"),
- "C13": dict(
-  technique="TLA+ spec of the import write sequence (ImportCrash.tla) model-checked over every crash cut with TLC + crash-cut enumeration on the real node, each run validated against Trace_ImportCrash.tla",
-  engine="crash", level="fault_enumeration",
-  text="ImportCrash.tla models one block import as its ordered durable writes (state tries, log-db transaction, index trie, block bulk incl. best "
-       "pointer, quality, finalized), crash between any two, restart (incl. log-db resync) and resumption; TLC checks BestComplete, StoredComplete, "
-       "LogsMatchBest, FinalityNotContradicting, FinMonotone and ResumeConverges over every cut (<= 2 crashes) of a forked 4-epoch stream. On the real "
-       "code a recording kv engine under muxdb makes a real node die before durable write k for EVERY k of seeded block streams (forks, store points, "
-       "transactions with logs; optionally a second crash while resuming); the node is restarted with thor's start-up sequence (genesis build, repository, "
-       "thor's own syncLogDB, bft engine), the best block is read completely (header, txs, receipts, number index, tx index, full walk of account and "
-       "storage tries compared with the uninterrupted node), the log db is compared with the canonical chain, and the stream is resumed and compared with "
-       "the uninterrupted node (best, qualities, finalized). Each run is also a trace that Trace_ImportCrash.tla must accept (write order, restart and end state).",
-  note="Trusted: a leveldb batch is atomic and batches are durable in issue order; a committed sqlite transaction is durable; crashes happen between kv writes. "
-       "Known finding F2 (quality of a store point lost between block bulk and quality write) is reported as KNOWN-FINDING by signature resume-diverges:q.",
-  ref="5 C13"),
-}
-ENGINES = [
- dict(name="crash", path="specs/store/ImportCrash.tla + harness/cmd/crashcuts + checks/C13.py", serves_properties=["C13"],
-      kind_free_text="TLA+/TLC over all crash cuts + exhaustive cut enumeration on the real node with trace validation"),
- dict(name="bft", path="specs/bft + harness/cmd/bftsim + checks/bftcommon.py", serves_properties=["C03", "C04"],
-      kind_free_text="TLA+/TLC exhaustive model + trace validation of real-code simulator runs"),
-]
-NA_DEFAULT = "check not built yet (implementation in progress, see DESIGN.md section 9)"
-NA = {}
 
+NA_DEFAULT = "check not built yet (implementation in progress, see DESIGN.md section 9 and 11)"
 m = {"version": 1, "setup_cmd": "cd /verif && bin/setup",
      "hooks": {"guard": "verif",
                "enable": "go build -tags verif (harness module /verif/harness: replace github.com/vechain/thor/v2 => /repo)",
@@ -61,7 +21,7 @@ m = {"version": 1, "setup_cmd": "cd /verif && bin/setup",
                "source_commits": hook_commits(), "add_only": True},
      "engines": ENGINES, "checks": [], "not_applicable": [],
      "notes": "bin/check <id> [--tier quick|thorough] [--replay <path>]; env VERIF_SEED, VERIF_TIER, VERIF_REPO (alternate tree). "
-              "Exit 0 ok / 1 VIOLATION (observed on real code) / 2 infrastructure or spec-only counterexample. See DESIGN.md."}
+              "Exit 0 ok / 1 VIOLATION (observed on real code) / 2 infrastructure or spec-only counterexample. See DESIGN.md, FRAMEWORK.md."}
 for p in props:
     i = p["id"]
     if i in CHECKS:
@@ -70,7 +30,7 @@ for p in props:
             "property_id": i, "quick_cmd": "bin/check %s --tier quick" % i, "thorough_cmd": "bin/check %s --tier thorough" % i,
             "evidence_file": "/verif/evidence/%s.json" % i, "replay_cmd_template": "bin/check %s --replay {path}" % i,
             "engine": c["engine"], "technique": c["technique"],
-            "level_claimed": {"category": c.get("level", MC), "text": c["text"], "design_ref": "DESIGN.md section " + c["ref"]},
+            "level_claimed": {"category": c.get("level", "model_checking"), "text": c["text"], "design_ref": "DESIGN.md section " + c["ref"]},
             "level_note": c["note"]})
     else:
         m["not_applicable"].append({"property_id": i, "reason": NA.get(i, NA_DEFAULT)})
